@@ -55,7 +55,7 @@ CHECKS["C06"] = dict(
           "of statuses reached + number of channels."),
     parts=[dict(test="TestC06Crash", quick=48, thorough=1600, per_shard=3),
            dict(test="TestC06Mgr", quick=24, thorough=480, per_shard=3)],  # manager level: RestartDataTransferChannel at every crash point
-    floors=dict(any={"TestC06Crash.crash_points": 500, "TestC06Crash.cleanup_resumed": 5, "TestC06Crash.queries": 50, "TestC06Crash.stalled_write_queries": 50,
+    floors=dict(any={"TestC06Crash.crash_points": 500, "TestC06Crash.boundary_length_errors": 16, "TestC06Crash.cleanup_resumed": 5, "TestC06Crash.queries": 50, "TestC06Crash.stalled_write_queries": 50,
                      "TestC06Mgr.crash_points": 150, "TestC06Mgr.cleanup_resumed": 20}),
     assumptions=["a single datastore Put is atomic (torn writes inside one Put are out of scope)"],
 )
@@ -86,9 +86,10 @@ CHECKS["C03"] = dict(
         dict(test="TestC03Init", quick=320, thorough=24000, per_shard=40),
         dict(test="TestC03Resp", quick=96, thorough=6000, per_shard=24),
         dict(test="TestC03Step", quick=112, thorough=1120, per_shard=8),
+        dict(test="TestC03Mgr", quick=96, thorough=4800, per_shard=12),
     ],
     floors=dict(any={"TestC03Init.both_signals_cases": 100, "TestC03Init.never_accepted_cases": 10, "TestC03Resp.finalizing_cases": 20,
-                     "TestC03Resp.release_from_finalizing": 20, "TestC03Step.steps_applied": 4000}),
+                     "TestC03Resp.release_from_finalizing": 20, "TestC03Step.steps_applied": 4000, "TestC03Mgr.holding_updates": 80, "TestC03Mgr.manager_releases": 60}),
     assumptions=["event classes (lifecycle/bookkeeping/ending) are read off the property statement, see chk/hist_test.go eventClass"],
 )
 
@@ -177,7 +178,7 @@ CHECKS["C04"] = dict(
         dict(test="TestC04Restart", quick=384, thorough=16000, per_shard=48),
     ],
     floors=dict(any={"TestC04New.accepted": 60, "TestC04New.refused": 200, "TestC04Restart.revalidation_accepted": 40, "TestC04Restart.revalidation_refused": 40,
-                     "TestC04Restart.restart_unregistered": 40}),
+                     "TestC04Restart.restart_unregistered": 40, "TestC04Restart.later_voucher_of_other_type": 100}),
     assumptions=["a validator error on restart is only required to give a not-accepted reply and a closed transport (weaker reading, DESIGN C04)"],
 )
 
@@ -246,7 +247,7 @@ CHECKS["C11"] = dict(
         dict(test="TestC11TwoParty", quick=320, thorough=24000, per_shard=40),
         dict(test="TestC11Step", quick=16, thorough=160, per_shard=4),
     ],
-    floors=dict(any={"TestC11TwoParty.actions": 3000, "TestC11TwoParty.resume_while_other_paused": 500, "TestC11TwoParty.with_responder_completion": 50,
+    floors=dict(any={"TestC11TwoParty.actions": 3000, "TestC11TwoParty.voucher_traffic_between_pauses": 200, "TestC11TwoParty.resume_while_other_paused": 500, "TestC11TwoParty.with_responder_completion": 50,
                      "TestC11Step.applied": 150, "TestC11Step.ignored": 700}),
     assumptions=["messages are delivered before the next action (quiescence between actions); delayed/reordered delivery is exercised by the end-to-end engine"],
 )
@@ -262,9 +263,9 @@ CHECKS["C09"] = dict(
           "no tracking/route/store/span/options left (hook snapshot). distinct = (status, ending, timing) resp. (role, request state, close kind, send mode, status)."),
     parts=[
         dict(test="TestC09Chan", quick=324, thorough=9720, per_shard=54),
-        dict(test="TestC09Close", quick=192, thorough=9600, per_shard=24),
+        dict(test="TestC09Close", quick=224, thorough=9800, per_shard=28),
     ],
-    floors=dict(any={"TestC09Chan.endings": 300, "TestC09Close.closes": 120}),
+    floors=dict(any={"TestC09Chan.endings": 300, "TestC09Close.closes": 120, "TestC09Close.nonterminal_graphsync_errors": 8}),
     assumptions=["'promptly' is decided on the virtual clock: the call must have returned when the bubble is idle 2 virtual minutes later"],
 )
 
@@ -281,7 +282,7 @@ CHECKS["C10"] = dict(
         dict(test="TestC10Restart", quick=384, thorough=19200, per_shard=48),
         dict(test="TestC10Cleanup", quick=12, thorough=120, per_shard=6),
     ],
-    floors=dict(any={"TestC10Restart.restarts": 250, "TestC10Restart.skip_checks": 60, "TestC10Restart.cancel_then_request": 20, "TestC10Restart.queued_message_checks": 8,
+    floors=dict(any={"TestC10Restart.restarts": 250, "TestC10Restart.own_side_finished_before_restart": 60, "TestC10Restart.skip_checks": 60, "TestC10Restart.cancel_then_request": 20, "TestC10Restart.queued_message_checks": 8,
                      "TestC10Cleanup.cleanup_restarts": 12}),
     assumptions=["restarts are issued at quiescent points (the skip-count clause is stated for recorded progress)"],
 )
